@@ -86,13 +86,17 @@ def run(ctx):
             lets[1].startswith("core::cmp::Ord::min(") and "$1" in lets[1]
         ctx.check(ok, RC, "writer::acc-log-range", cb["file"], "the writer's accuracy log is at least 5 and at most the requested maximum", observed=lets)
         # spread step
-        want = "((3 + (($1 >> 1) + ($1 >> 3))) ... & ($1 - 1))"
+        # the value next_position returns, as one expression (updates of the position parameter folded in order)
         sigs = {}
         for side in (FSED, FSEE):
             b = ctx.hir(side + "::next_position")
-            st = hq.top_statements(b["body"])
-            sigs[side] = [H.show(hq.peel(s_.get("e") or {})) for s_ in st]
-        want_s = ["p += (((table_size >> 1) + (table_size >> 3)) + 3)", "p &= (table_size - 1)", "p"]
+            cn = hq.Canon(b)
+            t = hq.peel(hq.tail_expr(b["body"]))
+            if t.get("k") == "Local":
+                sv = cn.straight_value(t)
+                t = sv if sv is not None else t
+            sigs[side] = cn(t)
+        want_s = "(($0 + ($1 >> 1) + ($1 >> 3) + 3) & ($1 - 1))"
         ctx.check(sigs[FSED] == want_s and sigs[FSEE] == want_s, RC, "spread-step", "",
                   "symbol spreading step (size>>1)+(size>>3)+3 masked by size-1, identical on both sides", observed=sigs, expected=want_s)
         # max logs requested by the compressor vs accepted by the decoder
